@@ -560,7 +560,7 @@ def main(argv):
                     hs.append(damage(ck.rng, u, feat) + ["end"])
                     continue
                 refs[len(hs)] = out
-                hs.append(u + ["expect %s ok %s" % (fnv1a(unit_source(u)), " <NL> ".join(out) or "-"), "end"])
+                hs.append(u + ["expect %s ok %s" % (fnv1a(unit_source(u)), " <NL> ".join(out) or "<EMPTY>"), "end"])
         ck.cov["counters"]["units_rejected_by_cpp_filter"] = rejected
         known = KNOWN_REPLAYS
     env = {"VERIF_BUILD": BUILD}
@@ -571,7 +571,7 @@ def main(argv):
                 f.write("# %d\n%s\n" % (i, "\n".join(h)))
         print("dumped %d histories" % (len(hs) + len(known)))
         sys.exit(0)
-    nontriv = lambda h, obs: any(o.startswith("out=") and not o.startswith("out=- ") for o in obs)
+    nontriv = lambda h, obs: any(o.startswith("out=") and not o.startswith("out=<EMPTY> ") for o in obs)
     ck.correspond(hb, db, hs, label="units", env=env, nontrivial=nontriv, timeout=1500,
                   ubsan_is_violation=r"preprocessor\.cpp|macro\.cpp|primitive\.cpp|expr/")
     if known:
@@ -583,7 +583,7 @@ def main(argv):
         mo = ck.run_model(db, refh, timeout=900)
         bad = 0
         for i, h, o in zip(idx, refh, mo):
-            want = "ref=" + (" <NL> ".join(refs[i]) or "-")
+            want = "ref=" + (" <NL> ".join(refs[i]) or "<EMPTY>")
             got = o[-1] if o else "MISSING"
             if got != want:
                 bad += 1
